@@ -23,7 +23,8 @@ Inductive fop :=
 | ListAll                         (* list(f) *)
 | IterAll                         (* [x for x in f] *)
 | Seek (off : Z) (whence : nat)   (* f.seek(off, whence) *)
-| Tell | GetValue | Len.          (* f.tell(), f.getvalue(), len(f) *)
+| Tell | GetValue | Len           (* f.tell(), f.getvalue(), len(f) *)
+| WriteLines (ds : list (list N)). (* f.writelines(ds): no separators added *)
 
 Inductive fobs :=
 | ONone | OData (d : list N) | OLines (l : list (list N)) | ONat (n : nat) | OErr (e : exn).
@@ -76,9 +77,13 @@ Definition seek_target (f : rfile) (off : Z) (whence : nat) : Z :=
   | _ => Z.of_nat (length (rf_data f)) + off
   end.
 
+Definition write_at (f : rfile) (d : list N) : rfile :=
+  mkRF (overwrite (rf_data f) (rf_pos f) d) (rf_pos f + length d).
+
 Definition ref_step (f : rfile) (op : fop) : rfile * fobs :=
   match op with
-  | Write d => (mkRF (overwrite (rf_data f) (rf_pos f) d) (rf_pos f + length d), ONone)
+  | Write d => (write_at f d, ONone)
+  | WriteLines ds => (fold_left write_at ds f, ONone)
   | WriteBad => (f, OErr TypeError)
   | Read None => let d := rest f in (advance f (length d), OData d)
   | Read (Some n) => let d := firstn n (rest f) in (advance f (length d), OData d)
@@ -111,7 +116,8 @@ Definition ref_step (f : rfile) (op : fop) : rfile * fobs :=
    out (`if length:` treats it as "no limit"). *)
 Definition ref_pre (k : fkind) (f : rfile) (op : fop) : bool :=
   match op with
-  | Write _ => match k with KString => Nat.eqb (rf_pos f) (length (rf_data f)) | KBytes => true end
+  | Write _ | WriteLines _ =>
+      match k with KString => Nat.eqb (rf_pos f) (length (rf_data f)) | KBytes => true end
   | ReadLine (Some n) => match k with KString => false | KBytes => negb (Nat.eqb n 0) end
   | ReadLines (S _) => match k with KString => false | KBytes => true end
   | Seek off wh =>
